@@ -572,6 +572,26 @@ def multiplier_column_rule(ctx):
         if isinstance(n, ast.Return) and isinstance(n.value, ast.Tuple):
             shared |= {e.id for e in n.value.elts if isinstance(e, ast.Name) and e.id in jparams}
 
+    def roles(f, u_pos):
+        """names by role, not by spelling: the unknown-increment parameter, the array the function returns first, and the
+        local holding the number of state components (defined as <layout>.n)"""
+        params = f.params()
+        u_name = params[u_pos]
+        ret = [n for n in ast.walk(f.node) if isinstance(n, ast.Return) and isinstance(n.value, ast.Tuple)]
+        out_name = ret[0].value.elts[0].id if ret and isinstance(ret[0].value.elts[0], ast.Name) else None
+        L0 = Locals(f.node)
+        nz = None
+        for nm, d in L0.defs.items():
+            dd = L0.resolve(d)
+            if isinstance(dd, ast.Attribute) and dd.attr == "n":
+                nz = nm
+        if out_name is None or nz is None:
+            raise AnalysisError(f"R19.11: roles of {f.name} not found")
+        return u_name, out_name, nz
+
+    uR, rname, nzR = roles(fR, 2)
+    uJ, jname, nzJ = roles(fJ, 1)
+
     def expander(f):
         L = Locals(f.node)
         for nm in list(L.defs):
@@ -581,35 +601,63 @@ def multiplier_column_rule(ctx):
 
     LR, LJ = expander(fR), expander(fJ)
 
-    def nz_name(L):
-        return "nz"
+    def make(L, u_name, nz_name):
+        loopvars = {x.id for n in ast.walk(L.fnode) if isinstance(n, (ast.For, ast.comprehension)) for x in ast.walk(n.target) if isinstance(x, ast.Name)}
 
-    def is_dG(e):
-        """u[..., nz] possibly followed by None axes"""
-        if isinstance(e, ast.Subscript) and isinstance(e.value, ast.Name) and e.value.id.startswith("u_"):
-            s = e.slice
-            elts = s.elts if isinstance(s, ast.Tuple) else [s]
-            core = [x for x in elts if not (isinstance(x, ast.Constant) and x.value is None) and not (isinstance(x, ast.Constant) and x.value is Ellipsis)]
-            return len(core) == 1 and isinstance(core[0], ast.Name) and core[0].id == "nz"
-        return False
+        def is_dG(e):
+            """u[..., nz] possibly followed by None axes"""
+            if isinstance(e, ast.Subscript) and isinstance(e.value, ast.Name) and e.value.id == u_name:
+                sl = e.slice
+                elts = sl.elts if isinstance(sl, ast.Tuple) else [sl]
+                core = [x for x in elts if not (isinstance(x, ast.Constant) and (x.value is None or x.value is Ellipsis))]
+                return len(core) == 1 and isinstance(core[0], ast.Name) and core[0].id == nz_name
+            return False
 
-    def leafname(e):
-        if is_dG(e):
-            return "dG"
-        return norm_text(ast.fix_missing_locations(copy.deepcopy(e)))
+        def canon(e):
+            """spelling-independent text: the role names are replaced by fixed ones"""
+            e = copy.deepcopy(e)
+            for x in ast.walk(e):
+                if isinstance(x, ast.Name):
+                    if x.id == u_name:
+                        x.id = "U"
+                    elif x.id == nz_name:
+                        x.id = "NZ"
+                    elif x.id in shared_map:
+                        x.id = shared_map[x.id]
+                    elif x.id in loopvars:
+                        x.id = "IDX"
+            return norm_text(ast.fix_missing_locations(e))
 
-    def expand_keep_nz(L, e):
-        # nz is a plain local (layout.n): keep its name so that u[..., nz] stays recognisable
-        saved = L.defs.pop("nz", None)
-        try:
-            out = L.expand(e)
-        finally:
-            if saved is not None:
-                L.defs["nz"] = saved
-        return out
+        def leafname(e):
+            return "dG" if is_dG(e) else canon(e)
 
-    def rowkey(L, slot):
-        return norm_text(ast.fix_missing_locations(expand_keep_nz(L, slot)))
+        def expand(e):
+            saved = L.defs.pop(nz_name, None)
+            try:
+                return L.expand(e)
+            finally:
+                if saved is not None:
+                    L.defs[nz_name] = saved
+
+        return leafname, expand, canon
+
+    # values handed from the residual to the Jacobian: k-th returned name <-> the Jacobian parameter of the same role
+    shared_map = {}
+    retR = [n for n in ast.walk(fR.node) if isinstance(n, ast.Return) and isinstance(n.value, ast.Tuple)][0].value.elts
+    jp = fJ.params()
+    # (r, sig, N, dNdSig) -> __Jacobian(self, u, zOld, N, dNdSig, C, dt): the last two returned values are parameters 3, 4
+    if len(retR) >= 4 and len(jp) >= 5:
+        for k, pos in ((2, 3), (3, 4)):
+            if isinstance(retR[k], ast.Name):
+                shared_map[retR[k].id] = f"SHARED{k}"
+                shared_map[jp[pos]] = f"SHARED{k}"
+                shared.add(retR[k].id)
+    # committed-state parameter
+    shared_map[fR.params()[3]] = "ZOLD"
+    shared_map[fJ.params()[2]] = "ZOLD"
+    LR, LJ = expander(fR), expander(fJ)
+    leafR, expandR, canonR = make(LR, uR, nzR)
+    leafJ, expandJ, canonJ = make(LJ, uJ, nzJ)
 
     # residual rows
     rows = {}
@@ -619,15 +667,15 @@ def multiplier_column_rule(ctx):
             tgt, val = n.targets[0], n.value
         elif isinstance(n, ast.AugAssign):
             tgt, val = n.target, n.value
-        if tgt is None or not (isinstance(tgt, ast.Subscript) and isinstance(tgt.value, ast.Name) and tgt.value.id.startswith("r_")):
+        if tgt is None or not (isinstance(tgt, ast.Subscript) and isinstance(tgt.value, ast.Name) and tgt.value.id == rname):
             continue
         s = tgt.slice
         elts = s.elts if isinstance(s, ast.Tuple) else [s]
         core = [x for x in elts if not (isinstance(x, ast.Constant) and x.value is Ellipsis)]
         if len(core) != 1:
             continue
-        key = rowkey(LR, core[0])
-        p = _opaque_poly(expand_keep_nz(LR, val), leafname)
+        key = canonR(expandR(core[0]))
+        p = _opaque_poly(expandR(val), leafR)
         if isinstance(n, ast.AugAssign):
             p = -p if isinstance(n.op, ast.Sub) else p
             rows[key] = rows.get(key, Poly()) + p
@@ -636,17 +684,17 @@ def multiplier_column_rule(ctx):
     # Jacobian entries of the multiplier column
     cols = {}
     for n in ast.walk(fJ.node):
-        if isinstance(n, ast.Assign) and len(n.targets) == 1 and isinstance(n.targets[0], ast.Subscript) and isinstance(n.targets[0].value, ast.Name) and n.targets[0].value.id.startswith("J_"):
+        if isinstance(n, ast.Assign) and len(n.targets) == 1 and isinstance(n.targets[0], ast.Subscript) and isinstance(n.targets[0].value, ast.Name) and n.targets[0].value.id == jname:
             s = n.targets[0].slice
             elts = s.elts if isinstance(s, ast.Tuple) else [s]
             core = [x for x in elts if not (isinstance(x, ast.Constant) and x.value is Ellipsis)]
-            if len(core) == 2 and isinstance(core[1], ast.Name) and core[1].id == "nz":
-                cols[rowkey(LJ, core[0])] = (_opaque_poly(expand_keep_nz(LJ, n.value), leafname), n)
+            if len(core) == 2 and isinstance(core[1], ast.Name) and core[1].id == nzJ:
+                cols[canonJ(expandJ(core[0]))] = (_opaque_poly(expandJ(n.value), leafJ), n)
     if not rows or not cols:
         raise AnalysisError("R19.11: residual rows / Jacobian multiplier column not found")
     for key, p in sorted(rows.items()):
         # skip rows whose dependence on dG goes through an opaque function (rate law): R19.8 covers the scalar return
-        nonpoly = any("dG" != v and ("u_e_pg[..., nz]" in v) for v in p.vars())
+        nonpoly = any("dG" != v and ("U[..., NZ]" in v) for v in p.vars())
         want = p.diff("dG")
         if key not in cols:
             if want.is_zero() or nonpoly:
